@@ -14,3 +14,14 @@ func (chain *BlockChain) VerifSetPostService(ps PostService) bool {
 	chain.push.mu.Unlock()
 	return true
 }
+
+// VerifDefaultPostService, when set, is installed as the delivery endpoint of
+// every Push created afterwards, before its tasks start (a restarted node starts
+// the tasks of its stored subscriptions inside newpush).
+var VerifDefaultPostService PostService
+
+func verifInitPush(push *Push) {
+	if VerifDefaultPostService != nil {
+		push.postService = VerifDefaultPostService
+	}
+}
